@@ -471,6 +471,62 @@ example : Computed (1/1000) (1/100) (⟨0, 0, 0, 1⟩ : Quat ℝ)
   · trivial
   · simp only [HOp.apply, Quat.dist2]; lie_unfold; norm_num
 
+/-- **Scale stays positive in rounded arithmetic.** The scale block of RxSO3 / Sim3 is updated by
+`s ← f·s` with `f > 0` (the other operand's scale, its reciprocal for an inverse, `exp σ` for a retraction).
+If every stored value is within relative distance `γ < 1` of the exact update of the previously stored value,
+the stored scale is positive after any number of operations, and within `(1±γ)ⁿ·∏f` of its start. -/
+def ScaleComputed (γ : ℝ) : ℝ → List (ℝ × ℝ) → Prop
+  | _, [] => True
+  | s, (f, s') :: rest => 0 < f ∧ |s' - f * s| ≤ γ * (f * s) ∧ ScaleComputed γ s' rest
+
+theorem rounded_scale_pos (γ : ℝ) (hγ0 : 0 ≤ γ) (hγ1 : γ < 1) (h : List (ℝ × ℝ)) :
+    ∀ (s : ℝ), 0 < s → ScaleComputed γ s h →
+      0 < h.foldl (fun _ p => p.2) s ∧
+      (1 - γ) ^ h.length * ((h.map Prod.fst).prod * s) ≤ h.foldl (fun _ p => p.2) s ∧
+      h.foldl (fun _ p => p.2) s ≤ (1 + γ) ^ h.length * ((h.map Prod.fst).prod * s) := by
+  induction h with
+  | nil => intro s hs _; simp [hs]
+  | cons p rest ih =>
+    intro s hs hc
+    obtain ⟨f, s'⟩ := p
+    obtain ⟨hf, hd, hrest⟩ := hc
+    have hfs : 0 < f * s := mul_pos hf hs
+    have hb := abs_le.mp hd
+    have hs' : 0 < s' := by nlinarith
+    obtain ⟨i1, i2, i3⟩ := ih s' hs' hrest
+    have hp : 0 ≤ (rest.map Prod.fst).prod := by
+      -- every factor is positive
+      have : ∀ (l : List (ℝ × ℝ)) (t : ℝ), ScaleComputed γ t l → 0 ≤ (l.map Prod.fst).prod := by
+        intro l
+        induction l with
+        | nil => intro _ _; simp
+        | cons q l ihl =>
+          intro t ht
+          obtain ⟨g, t'⟩ := q
+          obtain ⟨hg, _, hl⟩ := ht
+          simp only [List.map_cons, List.prod_cons]
+          exact mul_nonneg hg.le (ihl t' hl)
+      exact this rest s' hrest
+    have hq1 : 0 ≤ (1 - γ) ^ rest.length := pow_nonneg (by linarith) _
+    have hq2 : 0 ≤ (1 + γ) ^ rest.length := pow_nonneg (by linarith) _
+    simp only [List.foldl_cons, List.length_cons, List.map_cons, List.prod_cons, pow_succ]
+    refine ⟨i1, le_trans ?_ i2, le_trans i3 ?_⟩
+    · have : (1 - γ) * (f * s) ≤ s' := by linarith [hb.1]
+      calc (1 - γ) ^ rest.length * (1 - γ) * (f * (rest.map Prod.fst).prod * s)
+          = ((1 - γ) ^ rest.length * (rest.map Prod.fst).prod) * ((1 - γ) * (f * s)) := by ring
+        _ ≤ ((1 - γ) ^ rest.length * (rest.map Prod.fst).prod) * s' :=
+            mul_le_mul_of_nonneg_left this (mul_nonneg hq1 hp)
+        _ = _ := by ring
+    · have : s' ≤ (1 + γ) * (f * s) := by linarith [hb.2]
+      calc (1 + γ) ^ rest.length * ((rest.map Prod.fst).prod * s')
+          = ((1 + γ) ^ rest.length * (rest.map Prod.fst).prod) * s' := by ring
+        _ ≤ ((1 + γ) ^ rest.length * (rest.map Prod.fst).prod) * ((1 + γ) * (f * s)) :=
+            mul_le_mul_of_nonneg_left this (mul_nonneg hq2 hp)
+        _ = _ := by ring
+
+example : ScaleComputed (1/10) 2 [(3, 6.1), (1/2, 3)] := by
+  refine ⟨by norm_num, ?_, by norm_num, ?_, trivial⟩ <;> rw [abs_le] <;> constructor <;> norm_num
+
 /-- on the closed-form branch (every retraction angle above `eps`) validity is preserved *exactly* -/
 theorem SO3_valid_retr (eps : ℝ) (h0 : 0 ≤ eps) (X : Quat ℝ) (hX : SO3.Valid X) (a : Vec3 ℝ) (ha : eps < a.norm) :
     SO3.Valid (SO3Retr eps X a) := by
